@@ -951,9 +951,9 @@ def compare_runs(rx, ry, res, what):
         ex = []
         for c_ in cs: ex += [c_.re, c_.im]
         st_, mdl = irsym.check_zero(bt, ex, timeout_ms=60000)
+        if st_ == 'unsat': res['queries'] += 1; res['unsat'] += 1; return True
+        if st_ == 'sat': return False          # a candidate pairing that does not hold is not an obligation: the row is tried against the next candidate
         res['queries'] += 1
-        if st_ == 'unsat': res['unsat'] += 1; return True
-        if st_ == 'sat': return False
         res['unknown'].append({'q': q, 'why': str(mdl)}); return None
     if (rx.get('solve_rc'), ry.get('solve_rc')) != (0, 0):
         if rx.get('solve_rc') != ry.get('solve_rc'):
